@@ -80,6 +80,24 @@ func loadMutants(verif, prop string) ([]Mutant, error) {
 		}
 		ms = append(ms, Mutant{ID: meta.Seed, Property: prop, Patch: filepath.Join(filepath.Dir(mp), "patch.diff"), Note: "independently seeded change: " + meta.Needs})
 	}
+	// behaviour-preserving patches kept under benign/<id>/ (patch.diff + meta.json): must stay silent
+	bdirs, _ := filepath.Glob(filepath.Join(verif, "benign", "*", "meta.json"))
+	sort.Strings(bdirs)
+	for _, mp := range bdirs {
+		b, err := os.ReadFile(mp)
+		if err != nil {
+			continue
+		}
+		var meta struct {
+			ID       string `json:"id"`
+			Property string `json:"property"`
+			Note     string `json:"note"`
+		}
+		if json.Unmarshal(b, &meta) != nil || meta.Property != prop {
+			continue
+		}
+		ms = append(ms, Mutant{ID: meta.ID, Property: prop, Benign: true, Patch: filepath.Join(filepath.Dir(mp), "patch.diff"), Note: "behaviour-preserving patch: " + meta.Note})
+	}
 	return ms, nil
 }
 
